@@ -157,7 +157,11 @@ struct Nd {
 };
 static const char *const ENAMES[] = { "a", "b", "message", "body", "x", "stream:features", "stream:error", "item", "c-d", "e.f", "_g", "h1", "iq", "query", "p:q" };
 static const char *const ANAMES[] = { "id", "to", "from", "type", "xml:lang", "var", "k-1", "_x", "jid", "node", "p:a" };
-static const char *const NSPOOL[] = { "jabber:client", "urn:xmpp:sm:3", "http://jabber.org/protocol/disco#info", "urn:ietf:params:xml:ns:xmpp-stanzas", "", "u>v", "it's", "a b\tc" };
+// constants (qxmpp hands these to writeDefaultNamespace, which writes verbatim) ...
+static const char *const NSCONST[] = { "jabber:client", "urn:xmpp:sm:3", "http://jabber.org/protocol/disco#info", "urn:ietf:params:xml:ns:xmpp-stanzas", "" };
+// ... and data values (written with writeAttribute("xmlns", …) since repo commit 04d18dd)
+static const char *const NSPOOL[] = { "jabber:client", "urn:xmpp:sm:3", "http://jabber.org/protocol/disco#info", "urn:ietf:params:xml:ns:xmpp-stanzas", "", "u>v", "it's", "a b\tc",
+    "u\"><evil/></NAME><NAME xmlns=\"u", "u\" injected=\"1", "a&b", "a<b", "\r\n" };
 // values for writeDefaultNamespace that break out of the attribute (NAME is replaced by the element's own name)
 static const char *const NSADV[] = { "u\"><evil/></NAME><NAME xmlns=\"u", "u\" injected=\"1", "u\"/><evil/><y k=\"", "a&b", "a<b", "a&amp;b", "\"", "u\"><evil/>", "&lt;" };
 
@@ -170,13 +174,14 @@ struct Gen {
         n.style = depth >= 4 ? 1 + r.below(6) : (r.below(3) ? 0 : 1 + r.below(6));
         // an empty element is only completed by the next write: qxmpp never ends a stanza with one, nor do we
         if (depth == 0 && (n.style == 2 || n.style == 3)) n.style = 0;
-        auto ns = [&]() { return QString::fromLatin1(pick(r, NSPOOL)); };
+        auto ns = [&]() { return QString::fromLatin1(pick(r, NSPOOL)).replace(u"NAME"_qs, n.name); };
+        auto nsConst = [&]() { return QString::fromLatin1(pick(r, NSCONST)); };
         auto textKid = [&](const QString &v) { Nd t; t.text = true; t.txt = v; nodes++; return t; };
         switch (n.style) {
         case 1: n.kids.push_back(textKid(payload("text"))); break;
         case 3: { QString v = payload("text"); if (!v.isEmpty()) n.kids.push_back(textKid(v)); break; }
-        case 4: { n.attrs.emplace_back(u"xmlns"_qs, ns()); QString v = payload("text"); if (!v.isEmpty()) n.kids.push_back(textKid(v)); break; }
-        case 5: n.attrs.emplace_back(u"xmlns"_qs, ns()); break;
+        case 4: { n.attrs.emplace_back(u"xmlns"_qs, nsConst()); QString v = payload("text"); if (!v.isEmpty()) n.kids.push_back(textKid(v)); break; }
+        case 5: n.attrs.emplace_back(u"xmlns"_qs, nsConst()); break;
         case 6: { QString v = payload("text"); if (v.isEmpty()) v = u"&"_qs; n.kids.push_back(textKid(v)); break; }
         default: {  // 0 and 2: attributes
             int na = r.below(4); QStringList used;
@@ -202,10 +207,9 @@ static void writeNd(QXmlStreamWriter &w, const Nd &n, Rng &r) {
     auto attrs = [&]() {
         for (auto &kv : n.attrs) {
             if (kv.first == u"xmlns") {
-                // qxmpp writes namespaces with writeDefaultNamespace; writeAttribute("xmlns", …) only with constants (QXmppRosterIq.cpp)
-                bool plain = !kv.second.contains(u'"') && !kv.second.contains(u'<') && !kv.second.contains(u'&') && !kv.second.contains(u'>')
-                             && !kv.second.contains(u'\t');
-                if (plain && r.below(4) == 0) w.writeAttribute(u"xmlns"_qs, kv.second); else w.writeDefaultNamespace(kv.second);
+                // qxmpp writes constant namespaces with writeDefaultNamespace (verbatim) and data-valued ones with writeAttribute (escaped)
+                bool constantLike = false; for (auto c : NSCONST) if (kv.second == QLatin1String(c)) constantLike = true;
+                if (constantLike && r.below(4) != 0) w.writeDefaultNamespace(kv.second); else w.writeAttribute(u"xmlns"_qs, kv.second);
             } else if (kv.first.startsWith(u"xmlns:")) w.writeNamespace(kv.second, kv.first.mid(6));
             else if (!kv.second.isEmpty() && r.coin()) writeOptionalXmlAttribute(&w, kv.first, kv.second);
             else w.writeAttribute(kv.first, kv.second);
@@ -356,6 +360,11 @@ static void runString(const QString &s, int idx, bool doOracle) {
         QByteArray b; { QXmlStreamWriter w(&b); wy.f(w); }
         stat(std::string("oracle.way.") + wy.where);
         oracleTree(wy.shape, b, legal, wy.where, rep + " via=" + wy.where);
+        if (legal && std::string(wy.where) == "xmlns") {   // the namespace value itself must come back
+            QDomDocument d; bool okp = d.setContent(b, true);
+            if (!okp || d.documentElement().firstChildElement().namespaceURI() != s) oracleFail("C01:markup-injection:xmlns", rep + " namespace value not preserved, wrote=" + b.left(300).toStdString());
+            else oraclePass()++;
+        }
     }
 }
 
@@ -408,6 +417,8 @@ static void replayXmlnsFinding() {
         QByteArray b; { QXmlStreamWriter w(&b); w.writeStartElement(u"p"_qs); e.toXml(&w); w.writeEndElement(); }
         std::string want = skelDom(in.documentElement()), got = skelOfXml(b);
         stat("finding.replayed");
+        QDomDocument out; out.setContent(b, true);
+        if (want == got && out.documentElement().firstChildElement().namespaceURI() != V) got += " namespace-lost";
         if (want != got) oracleFail("C01:markup-injection:xmlns", "QXmppElement(dom <x xmlns=V/>).toXml with V=" + V.toStdString() + " wrote=" + b.toStdString() + " structure-parsed=" + want + " structure-reserialized=" + got);
         else oraclePass()++;
     }
@@ -419,6 +430,7 @@ static void replayXmlnsFinding() {
         QByteArray b; { QXmlStreamWriter w(&b); iq.toXml(&w); }
         QDomDocument out; bool okp = out.setContent(b, true);
         int evil = okp ? out.elementsByTagName(u"evil"_qs).count() : -1;
+        if (evil == 0 && out.elementsByTagName(u"description"_qs).item(0).namespaceURI() != desc.type()) evil = -2;  // namespace value lost
         stat("finding.replayed");
         if (evil != 0) oracleFail("C01:markup-injection:xmlns", "QXmppJingleIq content description type=u\"><evil/></description><description xmlns=\"u wrote=" + b.toStdString() + " evil-elements=" + std::to_string(evil));
         else oraclePass()++;
@@ -431,6 +443,10 @@ int main(int argc, char **argv) {
     Rng rng(args.seed);
     bool thorough = args.tier == "thorough";
     int idx = 0;
+
+    // 0. corpus: the witness of the repaired finding C01:markup-injection:xmlns (repo 04d18dd) on qxmpp's own serializers:
+    //    zero injected elements, namespace value preserved
+    replayXmlnsFinding();
 
     // 1. fixed strings first: every adversarial fragment, every blank / boundary character alone and between letters
     std::vector<QString> fixed = { QString(), u" "_qs, u"\r"_qs, u"\r\n"_qs, u"\t"_qs, u"x\ry\r\nz\tq\nw"_qs, u"  x  "_qs };
@@ -492,11 +508,9 @@ int main(int argc, char **argv) {
     // 5. Qt writes NAMES verbatim as well (recorded, not an oracle: names are not field values)
     { QByteArray b; { QXmlStreamWriter w(&b); w.writeStartElement(u"a b=\"1\""_qs); w.writeAttribute(u"k=\"1\" j"_qs, u"v"_qs); w.writeEndElement(); }
       stat("qt.names_written_verbatim", b == "<a b=\"1\" k=\"1\" j=\"v\"/>" ? 1 : 0); sample("names are not escaped by Qt: " + b.toStdString()); }
-    // Qt's namespace primitives do not escape either (recorded; the oracle judges the library's own data-valued uses)
+    // Qt's namespace primitives do not escape either (recorded; qxmpp passes only constants there: translators/ns_constants.py)
     { QByteArray b; { QXmlStreamWriter w(&b); w.writeStartElement(u"a"_qs); w.writeDefaultNamespace(u"u\"><b/>&"_qs); w.writeNamespace(u"v\"<"_qs, u"p"_qs); w.writeEndElement(); }
       stat("qt.namespace_uri_written_verbatim", b == "<a xmlns=\"u\"><b/>&\" xmlns:p=\"v\"<\"/>" ? 1 : 0); sample("namespace URIs are not escaped by Qt: " + b.toStdString()); }
-    // 6. the recorded finding on qxmpp's own serializers
-    replayXmlnsFinding();
     finish();
     return 0;
 }
